@@ -399,6 +399,14 @@ def opGls (j : Json) : Except String Json := do
   | none => pure (obj [("exc", .str "singular")])
   | some (p, S) => pure (obj [("p", enc p), ("S", enc S), ("chisq", enc (Gls.chisq A W y p))])
 
+/-- op "ift" (exact rationals): {"H": [[q]], "M": [[q]]} -> {"X": [[q]]} with H X + M = 0 | {"exc": "singular"} -/
+def opIft (j : Json) : Except String Json := do
+  let H : List (List Rat) ← get j "H"
+  let M : List (List Rat) ← get j "M"
+  match Gls.iftSens H M with
+  | none => pure (obj [("exc", .str "singular")])
+  | some X => pure (obj [("X", enc X)])
+
 def dispatch (op : String) (j : Json) : Except String Json :=
   match op with
   | "gamma" => opGamma false j
@@ -417,6 +425,7 @@ def dispatch (op : String) (j : Json) : Except String Json :=
   | "cov" => opCov j
   | "gevp" => opGevp j
   | "gls" => opGls j
+  | "ift" => opIft j
   | "sortnames" => opSortNames j
   | "select" => opSelect j
   | "jsonrep" => opJsonRep j
